@@ -11,7 +11,7 @@ CONSTANTS Mode, MaxWords, MaxInv, EmitCases
 VARIABLES line, lead, st, plan, ph
 
 \* ---------------- lines
-Words == { [k |-> "name", s |-> "p.patch"], [k |-> "hash"], [k |-> "p", v |-> 0], [k |-> "p", v |-> 2], [k |-> "p", v |-> -1],
+Words == { [k |-> "name", s |-> "p.patch"], [k |-> "hash"], [k |-> "p", v |-> 0], [k |-> "p", v |-> 1], [k |-> "p", v |-> 2], [k |-> "p", v |-> -1],
            [k |-> "popt"], [k |-> "strip", v |-> 2], [k |-> "stripopt"], [k |-> "R"], [k |-> "Rp", v |-> 2], [k |-> "bad"],
            [k |-> "num", v |-> 0], [k |-> "num", v |-> 2] }
 
@@ -25,7 +25,9 @@ AppliedVariants(n) ==
 Goals == {[g |-> "default"], [g |-> "all"], [g |-> "count", n |-> 0], [g |-> "count", n |-> 2], [g |-> "count", n |-> 7]}
            \cup {[g |-> "name", s |-> Names[i]] : i \in 1..3} \cup {[g |-> "name", s |-> "x.patch"]}
 \* a broken patch file at a position of the series: "none", or [pos, how \in {"missing","garbage"}]
-Broken(n) == {[pos |-> 0, how |-> "none"]} \cup {[pos |-> i, how |-> h] : i \in 1..n, h \in {"missing", "garbage"}}
+\* "garbage".."binary": one representative per error class of the token-level parser model (PatchText.tla)
+BrokenKinds == {"missing", "garbage", "truncated", "badheader", "nofilename", "binary"}
+Broken(n) == {[pos |-> 0, how |-> "none"]} \cup {[pos |-> i, how |-> h] : i \in 1..n, h \in BrokenKinds}
 
 \* ---------------- sessions: series of 4 patches on one file, patch i sets cell i from 0 to 1;
 \* `fail` = index of a patch that cannot apply (0 = none)
